@@ -247,6 +247,9 @@ def layout_jobs(tier, want_valid, want_invalid):
         for i in range(16):                                           # names that split in two ways between type and relation (dotted / slashed / dashed / underscored)
             jobs.append({"id": "L%d" % len(jobs), "doc": 0, "dot": i, "viol": 0, "vsite": 0, "style": dict(BASE_STYLE), "ov": []})
             jobs.append({"id": "L%d" % len(jobs), "doc": 0, "dot": i, "viol": 0, "vsite": 0, "style": rstyle(), "ov": []})
+        for i in range(4 + 160):                                      # documents off the family: no types, empty condition bodies, wide operator lists before a group
+            if i < 4 or tier != "quick" or (i - 4) % 80 < 40 or i % 3 == 0:
+                jobs.append({"id": "L%d" % len(jobs), "doc": 0, "special": i, "viol": 0, "vsite": 0, "style": dict(BASE_STYLE) if i % 2 == 0 or i < 4 else rstyle(), "ov": []})
         for d in range(27):                                           # full-line comments in column 0 at every line break, whatever the depth
             job(d, style=dict(BASE_STYLE, cmt=1, cind=0))
             job(d, style=dict(BASE_STYLE, cmt=1, cind=0, multi=True, ind="\t"))
@@ -391,7 +394,7 @@ def layout_docs(jobs, recs):
         r = recs[j["id"]]
         src = ["none", 0, 0]
         if r["valid"]:
-            src = ["kw", j["kw"][0], j["kw"][1]] if "kw" in j else ["wide", 0, 0] if "wide" in j else ["dot", j["dot"], 0] if "dot" in j else ["doc", j["doc"], 0]
+            src = ["special", j["special"], 0] if "special" in j else ["kw", j["kw"][0], j["kw"][1]] if "kw" in j else ["wide", 0, 0] if "wide" in j else ["dot", j["dot"], 0] if "dot" in j else ["doc", j["doc"], 0]
         if "wide" in j or j["style"].get("pad"):
             continue        # (100 KiB lines: nothing new for the listener, slow to ship through JSON)
         docs.append({"id": r["id"], "text": r["text"], "modular": r["modular"], "src": src})
